@@ -467,3 +467,83 @@ def make_radshock(case, out):
             raise
         out.label('no-solution-produced:%s' % type(e).__name__)
         return None
+
+
+# ---------------------------------------------------------------- burn-time solvers
+KEN1 = 'exactpack.solvers.kenamond.kenamond1.Kenamond1'
+KEN2 = 'exactpack.solvers.kenamond.kenamond2.Kenamond2'
+KEN3 = 'exactpack.solvers.kenamond.kenamond3.Kenamond3'
+DSDCYL = 'exactpack.solvers.dsd.cylexpansion.CylindricalExpansion'
+
+
+def rot2(a):
+    c, s = math.cos(a), math.sin(a)
+    return np.array([[c, -s], [s, c]])
+
+
+def rot3(a, b, c):
+    """rotation from three Euler angles (z-y-z)"""
+    def rz(t):
+        return np.array([[math.cos(t), -math.sin(t), 0], [math.sin(t), math.cos(t), 0], [0, 0, 1.0]])
+
+    def ry(t):
+        return np.array([[math.cos(t), 0, math.sin(t)], [0, 1.0, 0], [-math.sin(t), 0, math.cos(t)]])
+    return rz(a) @ ry(b) @ rz(c)
+
+
+angle = st.one_of(st.sampled_from([0.0, math.pi / 2, math.pi, -math.pi / 2]), uni(-math.pi, math.pi))
+
+
+@st.composite
+def unit_vec(draw, dim):
+    if dim == 2:
+        a = draw(angle)
+        return [math.cos(a), math.sin(a)]
+    a, b = draw(angle), draw(uni(0.0, math.pi))
+    return [math.sin(b) * math.cos(a), math.sin(b) * math.sin(a), math.cos(b)]
+
+
+@st.composite
+def ken1_params(draw):
+    g = draw(st.sampled_from([2, 3]))
+    return dict(geometry=g, D=draw(pos(1.0)), x_d=[draw(uni(-5.0, 5.0)) for _ in range(g)],
+                t_d=draw(st.one_of(st.just(0.0), uni(-2.0, 2.0))))
+
+
+@st.composite
+def ken2_params(draw):
+    g = draw(st.sampled_from([2, 3]))
+    R = draw(pos(3.0))
+    D2 = draw(pos(1.0))
+    D1 = D2 * (1.0 + draw(st.one_of(st.just(1.0), st.just(0.0), logu(0.01, 4.0))))
+    mags = [R * (1 + draw(logu(0.05, 5.0))) for _ in range(4)]
+    signs = draw(st.one_of(st.just([1, 1, -1, -1]), st.lists(st.sampled_from([1, -1]), min_size=4, max_size=4)))
+    dets = [m * s for m, s in zip(mags, signs)]
+    t3 = draw(st.one_of(st.just(0.0), uni(-1.0, 1.0)))
+    ts = []
+    for a in dets:
+        tc = t3 + R * (1 / D1 + 1 / D2) - abs(a) / D2
+        slack = draw(st.one_of(st.just(0.0), logu(1e-3, 3.0))) * R / D2
+        ts.append(tc + slack + 4e-16 * max(1.0, abs(tc)))
+    return dict(geometry=g, R=R, D1=D1, D2=D2, dets=dets, t_d=[ts[0], ts[1], t3, ts[2], ts[3]])
+
+
+@st.composite
+def ken3_params(draw):
+    g = draw(st.sampled_from([2, 3]))
+    R = draw(pos(3.0))
+    d = draw(unit_vec(g))
+    l = R * (1 + draw(logu(0.02, 5.0)))
+    return dict(geometry=g, R=R, D=draw(pos(2.0)), x_d=[l * c for c in d],
+                t_d=draw(st.one_of(st.just(0.0), uni(-2.0, 2.0))))
+
+
+@st.composite
+def dsdcyl_params(draw):
+    r1 = draw(pos(1.0))
+    r2 = r1 * (1 + draw(logu(0.05, 5.0)))
+    D1, D2 = draw(pos(0.5)), draw(pos(1.0))
+    a1 = draw(st.one_of(st.just(0.0), uni(0.0, 0.9))) * D1 * r1
+    a2 = draw(st.one_of(st.just(0.0), uni(0.0, 0.9))) * D2 * r2
+    return dict(r_1=r1, r_2=r2, D_CJ_1=D1, D_CJ_2=D2, alpha_1=a1, alpha_2=a2,
+                t_d=draw(st.one_of(st.just(0.0), uni(-2.0, 2.0))))
